@@ -164,6 +164,9 @@ Definition spec_step (op : list Z) (elems : list Z) : list Z :=
   | _ => elems
   end.
 
+(** the bound the property names, checked on the reported range count besides the generated one *)
+Definition PINNED_MAX_ACK_BLOCKS : Z := 64.
+
 Fixpoint oracle_go (i : ops) (o : outs) (elems : list Z) : bool :=
   match i, o with
   | [], [] => true
@@ -171,7 +174,7 @@ Fixpoint oracle_go (i : ops) (o : outs) (elems : list Z) : bool :=
       let elems' := spec_step op elems in
       let want := runs elems' in
       let n' := Z.of_nat (length want) in
-      (n' <=? MAX_ACK_BLOCKS)
+      (n' <=? MAX_ACK_BLOCKS) && (hd 0 out <=? PINNED_MAX_ACK_BLOCKS)
       && match op, out with
          | [3], n :: fl =>
              match unflatten fl with
